@@ -18,11 +18,12 @@ def _tv_not(x):
 
 
 class Explorer:
-    def __init__(self, view, atoms, some_atoms=()):
+    def __init__(self, view, atoms, some_atoms=(), equalities=()):
         self.view = view
         self.b = view.body
         self.atoms = atoms
         self.some_atoms = list(some_atoms)      # (term predicate, bool): the Option/Result term is Some/Ok (True) or None/Err
+        self.equalities = list(equalities)      # (term predicate, constant term): the assumptions pin such a term to that value
 
     def is_some_term(self, x, depth=0):
         """three-valued: the option-like term x is Some/Ok"""
@@ -51,6 +52,9 @@ class Explorer:
                 return mk_payload(t[2][0])
             if s is False:
                 return t[2][1]
+        for pred, c in self.equalities:
+            if pred(t):
+                return c
         return t
 
     def eval_term(self, t, depth=0):
@@ -158,13 +162,29 @@ class Explorer:
         seen = set()
         visited = set()
         work = [(s, frozenset((env0 or {}).items())) for s in starts]
-        budget = 20000
+        budget = 200000
+        count = {}
+        joined = {}
         while work and budget > 0:
             budget -= 1
             bi, fenv = work.pop()
             if (bi, fenv) in seen:
                 continue
             seen.add((bi, fenv))
+            # widening: a block reached with many different environments (drop flags and other incidental booleans multiply
+            # the path-sensitive states) continues with the facts all of them agree on; sound (fewer facts = more paths)
+            c_ = count.get(bi, 0) + 1
+            count[bi] = c_
+            if c_ > 6:
+                j = joined.get(bi)
+                if j is None:
+                    j = fenv
+                else:
+                    j = j & fenv
+                    if j == joined[bi] and c_ > 7:
+                        continue
+                joined[bi] = j
+                fenv = j
             visited.add(bi)
             if bi in stop:
                 continue
@@ -486,28 +506,42 @@ def le_const(t, x_ok, bound):
 
 def values_under(view, starts, atoms, op_json, site_bb=None, some_atoms=()):
     """the terms an operand can hold under the assumptions: the definitions of its (copy-chased) local that lie in blocks
-    reachable from `starts` under `atoms`; an operand that is not a plain multiply-defined local yields its one term"""
+    reachable from `starts` under `atoms`, followed through plain copies of other multiply-defined locals (a value handed on
+    through a temporary stays path-sensitive); an operand that is not a plain multiply-defined local yields its one term"""
     from .view import pnorm
     body = view.body
-    local = _chase_local(body, op_json)
-    if local is None:
-        return {view.op(op_json)}
-    defs = [(bi, st) for bi, si, st in body.stmts() if st["k"] == "assign" and not st["lhs"]["proj"] and st["lhs"]["local"] == local]
-    cdefs = [bi for bi in body.live_blocks() if body.blocks[bi]["term"]["k"] == "call" and body.blocks[bi]["term"].get("dest") is not None
-             and not body.blocks[bi]["term"]["dest"]["proj"] and body.blocks[bi]["term"]["dest"]["local"] == local]
-    if len(defs) + len(cdefs) <= 1:
-        return {view.op(op_json)}
-    vis = explore(view, starts, atoms, stop=[site_bb] if site_bb is not None else (), some_atoms=some_atoms)
-    if vis is None:
-        return {("unknown", "budget")}
-    out = set()
-    for bi, st in defs:
-        if bi in vis:
-            out.add(pnorm(view.T.rvalue(st["rv"])))
-    for bi in cdefs:
-        if bi in vis:
-            out.add(pnorm(view.T.call_term(bi)))
-    return out
+    vis_box = []
+
+    def vis():
+        if not vis_box:
+            vis_box.append(explore(view, starts, atoms, stop=[site_bb] if site_bb is not None else (), some_atoms=some_atoms))
+        return vis_box[0]
+
+    def of_operand(op, depth):
+        local = _chase_local(body, op)
+        if local is None or depth > 6:
+            return {view.op(op)}
+        defs = [(bi, st) for bi, si, st in body.stmts() if st["k"] == "assign" and not st["lhs"]["proj"] and st["lhs"]["local"] == local]
+        cdefs = [bi for bi in body.live_blocks() if body.blocks[bi]["term"]["k"] == "call" and body.blocks[bi]["term"].get("dest") is not None
+                 and not body.blocks[bi]["term"]["dest"]["proj"] and body.blocks[bi]["term"]["dest"]["local"] == local]
+        if len(defs) + len(cdefs) <= 1:
+            return {view.op(op)}
+        v = vis()
+        if v is None:
+            return {("unknown", "budget")}
+        out = set()
+        for bi, st in defs:
+            if bi in v:
+                rv = st["rv"]
+                if rv["k"] == "use" and rv["op"]["k"] in ("copy", "move") and not rv["op"]["place"]["proj"]:
+                    out |= of_operand(rv["op"], depth + 1)
+                else:
+                    out.add(pnorm(view.T.rvalue(rv)))
+        for bi in cdefs:
+            if bi in v:
+                out.add(pnorm(view.T.call_term(bi)))
+        return out
+    return of_operand(op_json, 0)
 
 
 def kind_atoms(lib, mk_ok, kind):
